@@ -2,8 +2,16 @@
 C04 – theorems that tie the model's assumptions to fact tables regenerated from the
 repository's source on every run (extract/main.go). Kept apart from C04.lean so that the
 property theorems and these obligations can be maintained independently.
+
+Besides the lock facts, Generated/ProcessFacts (extract/process.go) carries the structure of `Exit`, `AddExitHook`,
+`Fork`, `Join` and `ExitHooks.Exit` as flat data. The `…_facts` theorems pin the data; the `…_as_modelled` theorems
+*read* it (the guarded block of `Exit` as updates of the model's process record, the loop header of `ExitHooks.Exit`
+as an order, the lock calls of `AddExitHook` as one critical section, the condition of `Join`'s wait loop as a
+comparison) and prove that the reading is the model's `exitFlip` / `addHook` / `joining` step for every state.
 -/
 import Uniflow.Generated.Locks
+import Uniflow.Generated.ProcessFacts
+import Uniflow.Model.Process
 
 /-! ## Step granularity tied to the source
 
@@ -19,4 +27,230 @@ theorem C04.atomic_sections :
     acquireSites.contains ("process.Process", "Join", "mu", 1) = true ∧
     acquireSites.contains ("process.Process", "AddExitHook", "mu", 1) = true ∧
     acquireSites.contains ("process.Process", "Exit", "mu", 1) = true := by
+  decide
+
+open Uniflow.Process Uniflow.Generated.ProcessFacts
+
+/-! ## `Exit` -/
+namespace C04
+
+def cmpHolds (op : String) (x n : Nat) : Option Bool :=
+  if op = "==" then some (x == n)
+  else if op = "!=" then some (x != n)
+  else if op = ">" then some (decide (x > n))
+  else if op = ">=" then some (decide (x ≥ n))
+  else if op = "<" then some (decide (x < n))
+  else if op = "<=" then some (decide (x ≤ n))
+  else none
+
+/-- the two status tests of process.go on a model process -/
+def guardHolds (g : String) (pr : Proc) : Option Bool :=
+  if g = "p.status != StatusTerminated" then some (!pr.terminated)
+  else if g = "p.status == StatusTerminated" then some pr.terminated
+  else none
+
+/-- one statement of the guarded block of `Exit` as an update of the model's process record
+(`endTime` is not modelled) -/
+def applyWrite (e : Nat) (pr : Proc) (w : String) : Option Proc :=
+  if w = "close(p.done)" then some { pr with done := true }
+  else if w = "p.data = make(map[any]any)" then some { pr with data := [] }
+  else if w = "p.status = StatusTerminated" then some { pr with terminated := true }
+  else if w = "p.err = err" then some { pr with err := e }
+  else if w = "p.endTime = time.Now()" then some pr
+  else if w = "p.exitHooks = nil" then some { pr with hooks := [] }
+  else none
+
+def applyWrites (e : Nat) : Proc → List String → Option Proc
+  | pr, [] => some pr
+  | pr, w :: ws => match applyWrite e pr w with | some pr' => applyWrites e pr' ws | none => none
+
+/-- the order in which `ExitHooks.Exit` runs a hook list -/
+def runOrder (order : String) (hs : List Hook) : Option (List Hook) :=
+  if order = "reverse" then some hs.reverse else if order = "forward" then some hs else none
+
+/-- `Exit` as the facts read: the hook list is read first and unconditionally, the guarded block runs under the guard,
+the lock is released, then the hooks that were read run in the extracted order. -/
+def exitByFacts (s : State) (t p e : Nat) : Option State :=
+  if exitHeads ≠ ["p.mu.Lock()", "exitHooks := p.exitHooks", "if p.status != StatusTerminated", "p.mu.Unlock()",
+      "exitHooks.Exit(err)"] then none
+  else
+    let pr := s.procs p
+    match guardHolds exitGuard pr, runOrder hooksOrder pr.hooks with
+    | some true, some rem =>
+      (applyWrites e pr exitGuarded).map fun pr' => pushFrame (setProc s p pr') t { proc := p, rem := rem, err := e }
+    | some false, some rem => some (pushFrame s t { proc := p, rem := rem, err := e })
+    | _, _ => none
+end C04
+
+theorem C04.exit_facts :
+    exitHeads = ["p.mu.Lock()", "exitHooks := p.exitHooks", "if p.status != StatusTerminated", "p.mu.Unlock()",
+      "exitHooks.Exit(err)"] ∧
+    exitGuard = "p.status != StatusTerminated" ∧
+    exitGuarded = ["close(p.done)", "p.data = make(map[any]any)", "p.status = StatusTerminated", "p.err = err",
+      "p.endTime = time.Now()", "p.exitHooks = nil"] ∧
+    exitWrites = [("close:done", true), ("data", true), ("status", true), ("err", true), ("endTime", true),
+      ("exitHooks", true)] ∧
+    exitMuCalls = ["Lock", "Unlock"] ∧
+    hooksOrder = "reverse" ∧
+    hooksLoop = ⟨"for3", "i := len(h) - 1; i >= 0; i--", "", false, false, false, ["hook := h[i]", "hook.Exit(err)"]⟩ ∧
+    hooksHeads = ["for i := len(h) - 1; i >= 0; i--"] := by
+  decide
+
+/-- Every write `Exit` makes to the process stands under `if p.status != StatusTerminated` – a second `Exit` changes
+nothing, in particular not the stored error. -/
+theorem C04.exit_writes_guarded : exitWrites.all (·.2) = true ∧ exitGuard = "p.status != StatusTerminated" := by
+  decide
+
+/-- The reading of the extracted facts is the model's `exitFlip`, for every state, thread, process and error. -/
+theorem C04.exit_flip_as_modelled (s : State) (t p e : Nat) : C04.exitByFacts s t p e = some (exitFlip s t p e) := by
+  have h1 : exitHeads = ["p.mu.Lock()", "exitHooks := p.exitHooks", "if p.status != StatusTerminated", "p.mu.Unlock()",
+      "exitHooks.Exit(err)"] := by decide
+  have h2 : exitGuard = "p.status != StatusTerminated" := by decide
+  have h3 : exitGuarded = ["close(p.done)", "p.data = make(map[any]any)", "p.status = StatusTerminated", "p.err = err",
+      "p.endTime = time.Now()", "p.exitHooks = nil"] := by decide
+  have h4 : hooksOrder = "reverse" := by decide
+  unfold C04.exitByFacts
+  rw [h1, h2, h3, h4]
+  cases ht : (s.procs p).terminated <;>
+    simp [C04.guardHolds, C04.runOrder, C04.applyWrites, C04.applyWrite, exitFlip, ht]
+
+theorem C04.exit_flip_nonvacuous :
+    (C04.applyWrites 3 { hooks := [⟨.user 1, 0⟩] } exitGuarded).map (fun pr => (pr.terminated, pr.err, pr.hooks.length))
+      = some (true, 3, 0) ∧
+    C04.runOrder hooksOrder [⟨.user 1, 0⟩, ⟨.user 2, 1⟩] = some [⟨.user 2, 1⟩, ⟨.user 1, 0⟩] := by
+  decide
+
+/-! ## `AddExitHook` -/
+
+/-- `AddExitHook` as the facts read: ONE exclusive acquisition of `p.mu`, released on each of the three exits; under it
+the status test (terminated: the hook runs inline, after the unlock, with the error the process stored), the duplicate
+scan over `p.exitHooks`, the append. -/
+def C04.addByFacts (s : State) (t p : Nat) (k : HookKind) : Option State :=
+  let pr := s.procs p
+  let h : Hook := { kind := k, tok := s.nextTok }
+  if addMuCalls ≠ ["Lock", "Unlock", "Unlock", "Unlock"] then none
+  else if addHeads ≠ ["p.mu.Lock()", "if p.status == StatusTerminated", "for _, h := range p.exitHooks",
+      "p.exitHooks = append(p.exitHooks, hook)", "p.mu.Unlock()", "return true"] then none
+  else match addGuards with
+    | [(cond, branch)] =>
+      match C04.guardHolds cond pr with
+      | some true =>
+        if branch = "err := p.err; p.mu.Unlock(); hook.Exit(err); return false" then
+          some (pushFrame (alloc s p true) t { proc := p, rem := [h], err := pr.err })
+        else none
+      | some false =>
+        if addScan = ⟨"range", "p.exitHooks", "_,h", false, false, true, ["if h == hook", "  p.mu.Unlock()", "  return false"]⟩ then
+          some (if pr.hooks.any (fun h => h.kind == k) then s
+                else alloc (setProc s p { pr with hooks := pr.hooks ++ [h] }) p false)
+        else none
+      | none => none
+    | _ => none
+
+theorem C04.add_hook_facts :
+    addMuCalls = ["Lock", "Unlock", "Unlock", "Unlock"] ∧
+    addHeads = ["p.mu.Lock()", "if p.status == StatusTerminated", "for _, h := range p.exitHooks",
+      "p.exitHooks = append(p.exitHooks, hook)", "p.mu.Unlock()", "return true"] ∧
+    addGuards = [("p.status == StatusTerminated", "err := p.err; p.mu.Unlock(); hook.Exit(err); return false")] ∧
+    addScan = ⟨"range", "p.exitHooks", "_,h", false, false, true, ["if h == hook", "  p.mu.Unlock()", "  return false"]⟩ := by
+  decide
+
+/-- The reading of the extracted facts is the model's `addHook` – status check, duplicate scan and append are one
+atomic step. -/
+theorem C04.add_hook_as_modelled (s : State) (t p : Nat) (k : HookKind) :
+    C04.addByFacts s t p k = some (addHook s t p k) := by
+  have h1 : addMuCalls = ["Lock", "Unlock", "Unlock", "Unlock"] := by decide
+  have h2 : addHeads = ["p.mu.Lock()", "if p.status == StatusTerminated", "for _, h := range p.exitHooks",
+      "p.exitHooks = append(p.exitHooks, hook)", "p.mu.Unlock()", "return true"] := by decide
+  have h3 : addGuards = [("p.status == StatusTerminated", "err := p.err; p.mu.Unlock(); hook.Exit(err); return false")] := by
+    decide
+  have h4 : addScan = ⟨"range", "p.exitHooks", "_,h", false, false, true,
+      ["if h == hook", "  p.mu.Unlock()", "  return false"]⟩ := by decide
+  unfold C04.addByFacts
+  rw [h1, h2, h3, h4]
+  cases ht : (s.procs p).terminated <;> simp [C04.guardHolds, addHook, ht]
+
+/-! ## `Fork` and `Join` -/
+
+theorem C04.fork_facts :
+    forkMuCalls = ["Lock", "Unlock"] ∧
+    forkHeads = ["p.mu.Lock()", "p.children++", "p.mu.Unlock()", "child := &Process{…}",
+      "child.join = sync.NewCond(&child.mu)", "p.AddExitHook(child)", "return child"] ∧
+    forkChildFields = ["id: uuid.Must(uuid.NewV7())", "data: make(map[any]any)", "endTime: time.Now()",
+      "exitHooks: []ExitHook{ ExitFunc(func#1), }", "done: make(chan struct{})", "parent: p"] ∧
+    forkClosure = ["func#1(err error)", "  p.mu.Lock()", "  defer p.mu.Unlock()", "  if p.children--; p.children == 0",
+      "    p.join.Broadcast()"] := by
+  decide
+
+/-- `Fork` counts the child (its own critical section) BEFORE the child exists and registers it afterwards; the child
+is born running, with exactly one hook – the closure that un-counts it – and its parent: the model's `forkAdd` step,
+`mkChild` and `forkReg`. -/
+theorem C04.fork_as_modelled (s : State) (p : Nat) :
+    forkHeads.take 3 = ["p.mu.Lock()", "p.children++", "p.mu.Unlock()"] ∧
+    forkHeads.drop 3 = ["child := &Process{…}", "child.join = sync.NewCond(&child.mu)", "p.AddExitHook(child)", "return child"] ∧
+    ((mkChild s p).procs s.np).hooks = [⟨.waitDone p, s.nextTok⟩] ∧
+    ((mkChild s p).procs s.np).parent = some p ∧
+    ((mkChild s p).procs s.np).terminated = false ∧
+    ((mkChild s p).procs s.np).waitCnt = 0 := by
+  refine ⟨by decide, by decide, ?_, ?_, ?_, ?_⟩ <;> simp [mkChild, alloc, setProc, upd]
+
+theorem C04.join_facts :
+    joinHeads = ["p.mu.Lock()", "defer p.mu.Unlock()", "for p.children > 0"] ∧
+    joinLoop = ⟨"for", "p.children > 0", "", false, false, false, ["p.join.Wait()"]⟩ ∧
+    joinCond = ("p.children", ">", 0) := by
+  decide
+
+/-- `Join` returns exactly when the extracted condition of its wait loop is false of the child counter (and it is a
+loop: the condition is re-checked after every wake-up) – the model's `joining` step. -/
+theorem C04.join_wait_as_modelled (s : State) (t p : Nat) (h : (s.threads t).pc = .joining p) :
+    joinLoop.kind = "for" ∧
+    contStep s t =
+      (if C04.cmpHolds joinCond.2.1 (s.procs p).waitCnt joinCond.2.2 = some false
+       then setThread s t { s.threads t with pc := .idle } else s) := by
+  have hc : joinCond = ("p.children", ">", 0) := by decide
+  refine ⟨by decide, ?_⟩
+  rw [hc]
+  by_cases hw : (s.procs p).waitCnt = 0
+  · simp [contStep, h, hw, C04.cmpHolds]
+  · simp [contStep, h, hw, C04.cmpHolds]
+
+/-! ## outlines -/
+
+/-- The outlines of the functions the small-step machine follows. -/
+theorem C04.process_outlines_as_modelled :
+    outline_Exit = [
+      "p.mu.Lock()",
+      "exitHooks := p.exitHooks",
+      "if p.status != StatusTerminated",
+      "  close(p.done)",
+      "  p.data = make(map[any]any)",
+      "  p.status = StatusTerminated",
+      "  p.err = err",
+      "  p.endTime = time.Now()",
+      "  p.exitHooks = nil",
+      "p.mu.Unlock()",
+      "exitHooks.Exit(err)"] ∧
+    outline_AddExitHook = [
+      "p.mu.Lock()",
+      "if p.status == StatusTerminated",
+      "  err := p.err",
+      "  p.mu.Unlock()",
+      "  hook.Exit(err)",
+      "  return false",
+      "for _, h := range p.exitHooks",
+      "  if h == hook",
+      "    p.mu.Unlock()",
+      "    return false",
+      "p.exitHooks = append(p.exitHooks, hook)",
+      "p.mu.Unlock()",
+      "return true"] ∧
+    outline_Join = [
+      "p.mu.Lock()",
+      "defer p.mu.Unlock()",
+      "for p.children > 0",
+      "  p.join.Wait()"] ∧
+    outline_ExitHooks_Exit = [
+      "for i := len(h) - 1; i >= 0; i--",
+      "  hook := h[i]",
+      "  hook.Exit(err)"] ∧
+    outline_exitHook_Exit = ["h.exit(err)"] := by
   decide
